@@ -148,6 +148,14 @@ class FakeTask(FakeFuture):
         self.inner: Optional[FakeFuture] = None
         self.was_cancelled = False
 
+    @property
+    def label(self) -> Optional[str]:  # type: ignore[override]
+        return self.inner.label if self.inner is not None else self._label
+
+    @label.setter
+    def label(self, v: Optional[str]) -> None:
+        self._label = v
+
     def cancel(self, msg: Any = None) -> bool:
         """A task that has not started yet is cancelled for good (its coroutine never runs); cancelling a task whose
         callable already runs on a worker cannot stop that callable (the model keeps it in flight)."""
@@ -186,7 +194,6 @@ class FakeTask(FakeFuture):
         if not isinstance(y, FakeFuture):
             raise HarnessError("task awaits something that is not modelled: %r" % (y,))
         self.inner = y
-        self.label = y.label
         self.view = None
 
     def finish_inner(self) -> None:
@@ -209,7 +216,34 @@ class FakePool:
     def __init__(self, world: "World", max_workers: Any = None):
         self.world = world
         self.max_workers = max_workers
+        self.running: List[FakeFuture] = []  # callables occupying a worker
+        self.queue: List[Tuple[FakeFuture, Any, Tuple[Any, ...], Dict[str, Any], bool]] = []
         world.pools.append(self)
+
+    def has_free_worker(self) -> bool:
+        self.running = [f for f in self.running if not f.finished]
+        if self.max_workers is None:
+            return True
+        # (max_workers may be a symbolic integer: the comparison forks)
+        return bool(len(self.running) < self.max_workers)
+
+    def start_or_queue(self, fut: FakeFuture, fn: Any, args: Tuple[Any, ...], kwargs: Dict[str, Any], substituted: bool) -> None:
+        fut.pool = self
+        if self.has_free_worker():
+            self.running.append(fut)
+            self.world.run_in_future(fut, fn, args, kwargs, substituted=substituted)
+        else:
+            # the contract of ThreadPoolExecutor: at most max_workers callables run, the others wait in its queue
+            self.world.event("queued", fut.kind)
+            self.queue.append((fut, fn, args, kwargs, substituted))
+            self.world.queued.append(fut)
+
+    def worker_freed(self) -> None:
+        while self.queue and self.has_free_worker():
+            fut, fn, args, kwargs, substituted = self.queue.pop(0)
+            self.world.queued.remove(fut)
+            self.running.append(fut)
+            self.world.run_in_future(fut, fn, args, kwargs, substituted=substituted)
 
     def __enter__(self) -> "FakePool":
         return self
@@ -224,7 +258,7 @@ class FakePool:
 
     def submit(self, fn: Callable[..., Any], *args: Any, **kwargs: Any) -> FakeFuture:
         fut = FakeFuture(self.world, "thread")
-        self.world.run_in_future(fut, fn, args, kwargs)
+        self.start_or_queue(fut, fn, args, kwargs, False)
         return fut
 
 
@@ -253,7 +287,7 @@ class FakeLoop:
             kw = dict(func.keywords)
             kw["results"] = view
             func = functools.partial(func.func, *func.args, **kw)
-        self.world.run_in_future(fut, func, args, {}, substituted=True)
+        executor.start_or_queue(fut, func, args, {}, True)
         return fut
 
 
@@ -318,6 +352,7 @@ class World:
         self.cur_future: Optional[FakeFuture] = None
         self.in_flight: List[FakeFuture] = []  # started and not finished, pool-run futures (not tasks)
         self.entered_contexts: Dict[int, FakeFuture] = {}
+        self.queued: List[FakeFuture] = []  # handed to a pool whose workers are all busy
         self.suspend: Optional[Callable[[], Any]] = None
         self.events = 0
         self.lines = 0
@@ -363,6 +398,9 @@ class World:
         fut.finished = True
         if fut in self.in_flight:
             self.in_flight.remove(fut)
+        pool = getattr(fut, "pool", None)
+        if pool is not None:
+            pool.worker_freed()
 
     def observed_future(self, fut: FakeFuture) -> None:
         if self.monitor is not None:
@@ -375,6 +413,9 @@ class World:
 
     # ------------------------------------------------------------------ waiting
     def _finish(self, f: FakeFuture) -> None:
+        target = f.inner if isinstance(f, FakeTask) else f
+        if target is not None and target in self.queued:
+            raise HarnessError("the model was asked to finish a callable that is still queued in the pool")
         if isinstance(f, FakeTask):
             if f.inner is None:
                 if not f.finished:
@@ -415,9 +456,12 @@ class World:
                 order = list(list(itertools.permutations(order))[k])
             self.event("finish", via, tuple(f.label for f in order))
             remaining = list(order)
-            for f in order:
+            while remaining:
                 if mon is not None:
                     mon.blocked(set(remaining), via, return_when)
+                f = next((g for g in remaining if not self.is_queued(g)), None)
+                if f is None:
+                    raise HarnessError("the scheduler waits for callables that can never start")
                 self._finish(f)
                 remaining.remove(f)
             done = set(order) | already
@@ -427,15 +471,27 @@ class World:
         # FIRST_COMPLETED / FIRST_EXCEPTION: a non-empty subset finishes
         if mon is not None:
             mon.blocked(set(pending), via, return_when)
-        n = len(pending)
+        # only callables that occupy a worker can finish; those queued in the pool start when a worker is freed
+        cand = [f for f in pending if not self.is_queued(f)]
+        if not cand:
+            for g in list(self.in_flight):  # everything running elsewhere finishes, which frees workers
+                self.finish_future(g)
+            cand = [f for f in pending if not self.is_queued(f)]
+            if not cand:
+                raise HarnessError("the scheduler waits for callables that can never start (all queued, no worker can be freed)")
+        n = len(cand)
         k = c.choose(2**n - 1, "done") + 1 if n > 1 else 1
-        done = {f for i, f in enumerate(pending) if (k >> i) & 1}
+        done = {f for i, f in enumerate(cand) if (k >> i) & 1}
         self.event("finish", via, tuple(f.label for f in sorted(done, key=lambda f: f.uid)))
         for f in sorted(done, key=lambda f: f.uid):
             self._finish(f)
         for f in done:
             self.observed_future(f)
         return done, set(pending) - done
+
+    def is_queued(self, f: FakeFuture) -> bool:
+        target = f.inner if isinstance(f, FakeTask) else f
+        return target is not None and target in self.queued
 
     def wait(self, fs: Any, timeout: Any = None, return_when: str = ALL_COMPLETED) -> Any:
         import concurrent.futures as cf
